@@ -69,3 +69,26 @@ def finish_engine(E, run):
         run.trust('uninterpreted pure function (not verified here): ' + name)
     for name in sorted(E.used_contracts):
         run.trust('callee contract used at call sites: ' + name)
+
+
+def report_a_failures(run, fails, bounded=()):
+    """Report refuted engine-A obligations.  If a bounded oracle found a concrete failing input for the same
+    function, the obligation is reported with that input as its replay; otherwise with
+    no-failing-input-found (replay file carries the obligation name and the solver output)."""
+    for nm, label, detail in fails:
+        fn = nm.split('/')[1].split('[')[0]
+        hit = None
+        for bd in bounded:
+            for (ic, case, res, function, oname) in bd.failures:
+                if function and (function == fn or function in fn or fn in function):
+                    hit = (case, res, oname)
+                    break
+            if hit:
+                break
+        if hit:
+            run.violation(nm, 'all-inputs', dict(oracle=hit[2], case=hit[0], observed=str(hit[1])[:1500],
+                                                 obligation=nm, solver=detail), found_input=True,
+                          what=f'engine-A obligation refuted; concrete failing input from the bounded oracle: {str(hit[1])[:200]}')
+        else:
+            run.violation(nm, 'all-inputs', dict(obligation=nm, solver=detail), found_input=False,
+                          what='engine-A obligation refuted; the bounded oracle of this function found no failing input')
